@@ -230,6 +230,10 @@ LoopBoxes:
 		}
 		boxType, boxSize := box.Type(), box.Size()
 		switch boxType {
+		case "moov":
+			if _, ok := firstTrakSttsEntries(box.(*MoovBox)); !ok {
+				return nil, fmt.Errorf("moov box without complete trak/mdia/minf/stbl/stts chain")
+			}
 		case "mdat":
 			if f.isFragmented {
 				if lastBoxType != "moof" {
